@@ -243,8 +243,27 @@ func c20R1(a *A, calls []*ssa.Call, marshalers map[string]*ssa.Function) {
 		}
 	}
 	for _, c := range calls {
-		mi, ok := c.Common().Args[0].(*ssa.MakeInterface)
-		if !ok {
+		var mis []*ssa.MakeInterface
+		okArg := true
+		var gather func(v ssa.Value, d int)
+		gather = func(v ssa.Value, d int) {
+			switch x := v.(type) {
+			case *ssa.MakeInterface:
+				mis = append(mis, x)
+			case *ssa.Phi:
+				if d > 3 {
+					okArg = false
+					return
+				}
+				for _, e := range x.Edges {
+					gather(e, d+1)
+				}
+			default:
+				okArg = false
+			}
+		}
+		gather(c.Common().Args[0], 0)
+		if !okArg || len(mis) == 0 {
 			a.undecided(rule, "marshal-arg@"+c.Parent().Name(), w.posOf(c), "argument of json.Marshal is not a value of static type")
 			continue
 		}
@@ -255,7 +274,9 @@ func c20R1(a *A, calls []*ssa.Call, marshalers map[string]*ssa.Function) {
 				recv = n.Obj().Name()
 			}
 		}
-		visit(mi.X.Type(), recv, nil, w.posOf(c))
+		for _, mi := range mis {
+			visit(mi.X.Type(), recv, nil, w.posOf(c))
+		}
 	}
 	// each Marshaler returns exactly its own json.Marshal result
 	for tn, m := range marshalers {
@@ -355,6 +376,22 @@ func structSourcesE(v ssa.Value, recv ssa.Value, env *penv, prefix []string, out
 	if st == nil || depth > 6 {
 		return
 	}
+	// a struct built by an in-package function or method (e.g. s.baseJSON()): its fields are those of the returned value,
+	// with the callee's parameters bound to the arguments
+	if c, ok := strip(v).(*ssa.Call); ok {
+		if cal := c.Common().StaticCallee(); cal != nil && cal.Blocks != nil && !c.Common().IsInvoke() && c.Parent() != nil && cal.Pkg == c.Parent().Pkg {
+			if rets := returnsOf(cal); len(rets) == 1 && len(rets[0].Results) == 1 {
+				sub := &penv{vals: map[*ssa.Parameter]ssa.Value{}, parent: env}
+				for i, a := range c.Common().Args {
+					if i < len(cal.Params) {
+						sub.vals[cal.Params[i]] = a
+					}
+				}
+				structSourcesE(rets[0].Results[0], recv, sub, prefix, out, depth+1)
+				return
+			}
+		}
+	}
 	structFields(fieldsOfValue(v, 0), st, recv, env, prefix, out, depth)
 }
 
@@ -391,6 +428,7 @@ func structFields(fs map[string]fsrc, st *types.Struct, recv ssa.Value, env *pen
 type marshalSite struct {
 	Call *ssa.Call
 	Env  *penv
+	Arg  *ssa.MakeInterface // the marshalled value (one site per alternative when the argument is a phi of values)
 }
 
 // exactMarshalResult: every return of f yields exactly (bytes, error) of one json.Marshal call or of an in-package helper
@@ -415,7 +453,33 @@ func exactMarshalResult(f *ssa.Function, env *penv, depth int, sites *[]marshalS
 			continue
 		}
 		if staticCalleeIs(c.Common(), "encoding/json.Marshal") {
-			*sites = append(*sites, marshalSite{c, env})
+			var alts []*ssa.MakeInterface
+			var gather func(v ssa.Value, d int) bool
+			gather = func(v ssa.Value, d int) bool {
+				switch x := v.(type) {
+				case *ssa.MakeInterface:
+					alts = append(alts, x)
+					return true
+				case *ssa.Phi:
+					if d > 3 {
+						return false
+					}
+					for _, e := range x.Edges {
+						if !gather(e, d+1) {
+							return false
+						}
+					}
+					return true
+				}
+				return false
+			}
+			if gather(c.Common().Args[0], 0) {
+				for _, mi := range alts {
+					*sites = append(*sites, marshalSite{c, env, mi})
+				}
+			} else {
+				*sites = append(*sites, marshalSite{c, env, nil})
+			}
 			continue
 		}
 		cal := c.Common().StaticCallee()
@@ -459,8 +523,9 @@ func c20R2(a *A, marshalers map[string]*ssa.Function) {
 		matched := map[int]int{}
 		for _, site := range sites {
 			c := site.Call
-			mi, ok := c.Common().Args[0].(*ssa.MakeInterface)
-			if !ok {
+			mi := site.Arg
+			if mi == nil {
+				a.undecided(rule, "json-field@"+tn, w.posOf(c), "the marshalled value is not a value of static type")
 				continue
 			}
 			st := structOf(mi.X.Type())
@@ -657,8 +722,9 @@ func c20R4(a *A, m *ssa.Function) {
 		return
 	}
 	mc := sites[0].Call
-	mi, ok := mc.Common().Args[0].(*ssa.MakeInterface)
-	if !a.need(ok, rule, "marshalled struct") {
+	_ = mc
+	mi := sites[0].Arg
+	if !a.need(mi != nil, rule, "marshalled struct") {
 		return
 	}
 	st := structOf(mi.X.Type())
@@ -673,12 +739,33 @@ func c20R4(a *A, m *ssa.Function) {
 	fs := fieldsOfValue(mi.X, 0)
 	src := fs[dataField]
 	recv := ssa.Value(m.Params[0])
-	phi, isPhi := src.Val.(*ssa.Phi)
+	// the alternatives of the data field: a phi of values, or a field assigned on some of the paths into a join
+	type alt struct {
+		pred *ssa.BasicBlock
+		val  ssa.Value
+	}
+	var alts []alt
+	var join *ssa.BasicBlock
+	if phi, isPhi := src.Val.(*ssa.Phi); isPhi {
+		join = phi.Block()
+		for i, e := range phi.Edges {
+			alts = append(alts, alt{join.Preds[i], e})
+		}
+	} else if len(src.Alts) > 0 {
+		join = src.Join
+		for _, al := range src.Alts {
+			alts = append(alts, alt{al.Pred, al.Src.Val})
+		}
+	}
 	good := false
 	why := "the data field is not chosen between nil and string(c.Data)"
-	if isPhi && len(phi.Edges) == 2 {
+	if len(alts) == 2 {
 		var nilIdx, strIdx = -1, -1
-		for i, e := range phi.Edges {
+		for i, al := range alts {
+			e := al.val
+			if e == nil {
+				continue
+			}
 			if isNilConst(e) {
 				nilIdx = i
 			} else if mk, ok := e.(*ssa.MakeInterface); ok {
@@ -689,8 +776,8 @@ func c20R4(a *A, m *ssa.Function) {
 		}
 		if nilIdx >= 0 && strIdx >= 0 {
 			// the nil edge is exactly the `c.Data == nil` edge
-			pred := phi.Block().Preds[nilIdx]
-			other := phi.Block().Preds[strIdx]
+			pred := alts[nilIdx].pred
+			other := alts[strIdx].pred
 			cls := func(b, succ *ssa.BasicBlock) (string, bool) {
 				conds := dominatingConds(b)
 				if iff, ok := lastInstr(b).(*ssa.If); ok && b.Succs[0] != b.Succs[1] {
@@ -712,8 +799,8 @@ func c20R4(a *A, m *ssa.Function) {
 				}
 				return "nil", true
 			}
-			c1, ok1 := cls(pred, phi.Block())
-			c2, ok2 := cls(other, phi.Block())
+			c1, ok1 := cls(pred, join)
+			c2, ok2 := cls(other, join)
 			good = ok1 && ok2 && c1 == "nil" && c2 == "nonnil"
 			if !good {
 				why = fmt.Sprintf("JSON null is produced under [%s] and the string under [%s]; it must be null exactly when c.Data == nil", c1, c2)
